@@ -356,18 +356,22 @@ class SRTM30:
         elevation = np.zeros(lats_d.shape + lons_d.shape)
         tiles = SRTM30.get_tiles(lat_min, lon_min, lat_max, lon_max)
         for t in tiles:
-            dem = SRTM30.get_tile(t)
             lats, lons = SRTM30.get_grids(t)
             lat_min_s, lon_min_s, lat_max_s, lon_max_s = SRTM30.get_bounds(t)
-
-            inds_lat = np.logical_and(lat_min <= lats, lats < lat_max)
-            inds_lon = np.logical_and(lon_min <= lons, lons < lon_max)
-            inds_s = np.logical_and(inds_lat.reshape(-1, 1),
-                                    inds_lon.reshape(1, -1))
 
             inds_lat = np.logical_and(lat_min_s <= lats_d, lats_d < lat_max_s)
             inds_lon = np.logical_and(lon_min_s <= lons_d, lons_d < lon_max_s)
             inds_d = np.logical_and(inds_lat.reshape(-1, 1),
+                                    inds_lon.reshape(1, -1))
+            # The block edges above carry round-off, so a neighbouring tile
+            # may be listed although no cell centre lies in it: don't fetch it.
+            if not inds_d.any():
+                continue
+
+            dem = SRTM30.get_tile(t)
+            inds_lat = np.logical_and(lat_min <= lats, lats < lat_max)
+            inds_lon = np.logical_and(lon_min <= lons, lons < lon_max)
+            inds_s = np.logical_and(inds_lat.reshape(-1, 1),
                                     inds_lon.reshape(1, -1))
 
             elevation[inds_d] = dem[inds_s]
